@@ -68,7 +68,8 @@ import "bytes"
 // ... and every payload of at most 131071 bytes is accepted (nothing but the writer can make the plain encoder fail)
 //@   ensures accepted: n <= 131071 && inmemory(dest) ==> err == nil
 //@   ensures plain: n <= 131071 && c.compressor == nil && err == nil ==> written(dest) == w0 + 6 + n + 4 && wle3(dest, w0) == hdrU(segment.Header) && Z(segment.Header.UncompressedPayloadLength) == Z(n)
-//@   ensures lz4: n <= 131071 && c.compressor != nil && err == nil ==> written(dest) == w0 + 8 + Z(segment.Header.CompressedPayloadLength) + 4 && wle5(dest, w0) == hdrC(segment.Header)
+//@   ensures lz4: n <= 131071 && c.compressor != nil && err == nil ==> wle5(dest, w0) == hdrC(segment.Header)
+//@   ensures lz4len: n <= 131071 && c.compressor != nil && err == nil && segment.Header.UncompressedPayloadLength != 0 ==> written(dest) == w0 + 8 + Z(segment.Header.CompressedPayloadLength) + 4
 
 // A payload compressor touches only the two streams it is given (a bound on the compressed size is not under proof,
 // so encodeSegmentCompressed's use of the 32-bit length field is not covered)
